@@ -159,7 +159,7 @@ def stepSlots (d : Slots) (line : String) : Slots × String :=
   | ["FORK", n] =>
     match nat? n with
     | some k =>
-      let cur := d.slots.getD d.cur {}
+      let cur := copy (d.slots.getD d.cur {})
       if k < d.slots.size then ({ d with slots := d.slots.set! k cur }, "ok")
       else if k = d.slots.size then ({ d with slots := d.slots.push cur }, "ok") else (d, "bad-op")
     | none => (d, "bad-op")
